@@ -73,14 +73,26 @@ Print Assumptions C08_main.
 Theorem C08_plain_for_conv_rejected : forall tn s st,
   check_C08 (mkCfg (lit "op") (lit "sa") false true, [TOp tn None (ODropConstraint (Conv s) None)])
             (mkOut (Some st) (Some [TOp tn None (ODropConstraint (Plain (mkId s None)) None)]) true) = false.
-Proof. intros. unfold check_C08, exec_names_ok, names_agree. reflexivity. Qed.
+Proof. intros. unfold check_C08, exec_names_ok, names_agree. cbn [o_parsed o_sql_same o_exec fst snd andb]. reflexivity. Qed.
 Print Assumptions C08_plain_for_conv_rejected.
 
+(* a Column whose key differs from its database name (the ORM's uname = mapped_column("user_name")): every renderer addresses
+   it by the NAME, and the operation read back from the rendered text has no key left (expected = nk_top of the input; this is
+   what C08_eval states).  The column and index-column instances: *)
+Theorem C08_column_read_back_by_name : forall c x, can_column c x = true -> eval_column c (render_column c x) = Some (nk_col x).
+Proof. exact RenderProof.rt_column. Qed.
+Print Assumptions C08_column_read_back_by_name.
+Theorem C08_index_columns_read_back_by_name : forall c l, forallb can_ixexpr l = true ->
+  mapM (as_ixexpr c) (map (render_ixexpr c) l) = Some (map nk_ix l).
+Proof. exact RenderProof.rt_ixexprs. Qed.
+Print Assumptions C08_index_columns_read_back_by_name.
+
 (* ---------------------------------------------------------------- what is false of the faithful model *)
+
 Definition cfg0 : cfg := mkCfg (lit "op") (lit "sa") false false.
 Definition id0 (s:string) : ident := mkId (lit s) None.
 Definition col0 (d:option sdefault) : column :=
-  mkCol (id0 "c") (mkTy TySa [lit "String"] []) d None true false None.
+  mkCol (id0 "c") (mkTy TySa [lit "String"] []) d None true false None None.
 
 (* a string server default with a quote at either end loses it: _render_server_default strips them *)
 Definition w_default : c08_in := (cfg0, [TOp (id0 "t") None (OAddColumn (col0 (Some (SdStr (lit "'x'")))))]).
@@ -124,21 +136,31 @@ Proof.
 Qed.
 Print Assumptions C08_fetched_value_roundtrip.
 
+(* an inline ForeignKey to a column whose key differs from its name: CreateTableOp.to_table builds the referred table from
+   ForeignKey._get_colspec(), which carries the KEY, so direct invocation emits REFERENCES t2 (<key>); the rendered code has the
+   name (translated by _fk_colspec) and emits REFERENCES t2 (<name>) *)
+Definition w_fkkey : c08_in :=
+  (cfg0, [TCreateTable (mkTable (id0 "t") None [col0 None]
+            [CFk [id0 "c"] [mkRef (lit "t2.c_remkey") (Some (lit "t2.c_rem"))] NoName None None None None false None] None [] None)]).
+Theorem C08_eval_refuted_fk_referred_key : ~ C08_holds w_fkkey (model_C08 w_fkkey).
+Proof. intros [_ [H _]]. vm_compute in H. discriminate. Qed.
+Print Assumptions C08_eval_refuted_fk_referred_key.
+
 (* ---------------------------------------------------------------- non-vacuity *)
 Definition ex_table : table :=
   mkTable (id0 "it's") (Some (id0 "My Schema"))
-    [mkCol (id0 "na\""me") (mkTy TySa [lit "String"] [PKw (lit "length") (PInt false (lit "30"))]) (Some (SdStr (lit "d'f"))) None false false (Some (lit "c'm"));
-     mkCol (id0 "n") (mkTy (TyDialect (lit "mysql")) [lit "TINYINT"] []) (Some (SdComputed (lit "a + 1") (Some true))) (Some false) true false None]
+    [mkCol (id0 "na\""me") (mkTy TySa [lit "String"] [PKw (lit "length") (PInt false (lit "30"))]) (Some (SdStr (lit "d'f"))) None false false (Some (lit "c'm")) (Some (lit "uname"));
+     mkCol (id0 "n") (mkTy (TyDialect (lit "mysql")) [lit "TINYINT"] []) (Some (SdComputed (lit "a + 1") (Some true))) (Some false) true false None None]
     [CPk [id0 "n"] (Conv (lit "pk_t")); CUq [id0 "n"] (Plain (id0 "uq'1")) (Some true) None; CCk (lit "n > 0") NoName]
     (Some (lit "tbl 'c'")) [lit "TEMPORARY"] (Some true).
 Definition ex_input : c08_in :=
   (mkCfg (lit "op") (lit "sa") true true,
    [TCreateTable ex_table;
-    TModify (id0 "t") (Some (id0 "s")) [(id0 "t", Some (id0 "s"), OCreateIndex (Conv (lit "ix")) [IxCol (id0 "a b"); IxExpr (lit "lower(x)")] (Some true) None
+    TModify (id0 "t") (Some (id0 "s")) [(id0 "t", Some (id0 "s"), OCreateIndex (Conv (lit "ix")) [IxCol (id0 "a b") (Some (lit "ab_key")); IxExpr (lit "lower(x)")] (Some true) None
                                                                     (mkIxKw (Some (lit "gin")) (Some (lit "x > 'it''s'")) (Some true)));
                                         (id0 "t", Some (id0 "s"), OAddColumn (mkCol (id0 "i") (mkTy TySa [lit "Integer"] []) (Some (SdIdentity
                                            (mkIdn (Some true) None (Some (false, lit "3")) (Some (true, lit "2")) None None None None (Some false) None None)))
-                                           None false false None));
+                                           None false false None None));
                                         (id0 "t", Some (id0 "s"), OCreateTableComment (Some (lit "it's")) None)];
     TExecute (lit "update t set c = 'it''s'")]).
 Example C08_main_nonvacuous : inclass_C08 ex_input = true /\ length (render_ops (fst ex_input) (snd ex_input)) = 3%nat.
